@@ -1,19 +1,20 @@
 from cacheprops import CACHE_TB, CACHE_ASSUMPTIONS, ca_component
 from c12_surfaces_part import SURF_PROP
+from c12_wire_part import WIRE_PROP
 
 ID = "C12"
 PROP = {
-    "modules": ["Gnmi.Props.C12", "Gnmi.Props.C12Meta"] + SURF_PROP["modules"],
+    "modules": ["Gnmi.Props.C12", "Gnmi.Props.C12Meta"] + SURF_PROP["modules"] + WIRE_PROP["modules"],
     "theorems": ["Gnmi.C12." + t for t in [
         "ingest_total", "ingest_keeps_invariant", "updateMetadata_total", "rejected_preserves", "unknown_target_rejected",
         "meta_refresh_no_panic", "panics_false", "genMetaOne_call_no_panic", "updateMetaP_no_panic", "resetP_no_panic",
         "updateMetadataP_no_panic", "sync_no_panic", "connect_no_panic", "connectError_no_panic",
-        "generateMetaUpdatesP_fst", "updateMetaP_fst", "resetP_fst", "updateMetadataP_fst", "panics_update_iff"]] + SURF_PROP["theorems"],
-    "components": [ca_component("c12", 2500, 30000)] + SURF_PROP["components"],
+        "generateMetaUpdatesP_fst", "updateMetaP_fst", "resetP_fst", "updateMetadataP_fst", "panics_update_iff"]] + SURF_PROP["theorems"] + WIRE_PROP["theorems"],
+    "components": [ca_component("c12", 2500, 30000)] + SURF_PROP["components"] + WIRE_PROP["components"],
     "extra": SURF_PROP["extra"],
     "monitor": "spec", "level": "proof",
-    "trusted_base": CACHE_TB + ["protobuf wire decoding (the theorems are over decoded messages)"] + SURF_PROP["trusted_base"],
-    "assumptions": CACHE_ASSUMPTIONS + SURF_PROP["assumptions"],
+    "trusted_base": CACHE_TB + ["protobuf wire decoding (the theorems are over decoded messages)"] + SURF_PROP["trusted_base"] + WIRE_PROP["trusted_base"],
+    "assumptions": CACHE_ASSUMPTIONS + SURF_PROP["assumptions"] + WIRE_PROP["assumptions"],
     "manifest": {
         "level_text": "Cache ingest surface: every partial Go operation on the ingest path is a checked model operation with an explicit panic "
                       "outcome; ingest_total proves the panic outcome unreachable for every reachable cache state and every notification "
@@ -24,7 +25,7 @@ PROP = {
                       "gnmiUpdate result class State.step/genMetaOne drop, are re-observed with the class kept (generateMetaUpdatesP etc., "
                       "proved equal to the existing functions in state and events) and meta_refresh_no_panic proves no inner call reaches "
                       "the panic outcome in any reachable state. "
-                      + SURF_PROP["level_text_part"],
+                      + SURF_PROP["level_text_part"] + WIRE_PROP["level_text_part"],
         "level_note": "Trusted: Lean kernel; model validated by the ca correspondence; protobuf decoding. Subscribe-handler, client-receive, "
                       "CLI-display and manager surfaces: Props/C12Surfaces.lean over Model/RecvSurfaces.lean, tied by the rx correspondence "
                       "(json/prototext/txtpbfmt/fmt trusted).",
